@@ -39,6 +39,16 @@ theorem all_exported (e : ModId) (he : e ∈ Gen.current.entries)
       ∀ n ∈ names, (σ₀.get Gen.current p n).isSome = true ∧ (σ₀.get Gen.current e n).isSome = true :=
   exported_of_resolvesAll Gen.current current_tree_resolves e he E hE p hp P hP names hall
 
+/-- the fixpoint iteration reached a closed set for every entry point of the current tree -/
+theorem current_closures_ok : closuresOk Gen.current = true := by decide +kernel
+
+/-- **What `import lena.X` loads, for the current tree**: every module in `sys.modules` after an
+entry point's import is in the static import closure of that entry. -/
+theorem current_loaded_within_closure (e : ModId) (he : e ∈ Gen.current.entries) (σ : State)
+    (hi : importEntry Gen.current e = .ok σ) (c : ModId) (hc : σ.statusOf c ≠ .absent) :
+    memSet (importClosure Gen.current e) c = true :=
+  loaded_within_closure Gen.current current_closures_ok e he σ hi c hc
+
 /-- non-vacuity: there are entry points, and they star-import packages that advertise names -/
 example : Gen.current.entries ≠ [] := by decide
 example : (Gen.current.entries.any fun e =>
